@@ -854,20 +854,21 @@ func ruleRepeatedNesting(c *Ctx) {
 					if !ok || truths[i] {
 						continue
 					}
-					if cal := call.Common().StaticCallee(); cal != nil && cal.Pkg != nil && inModule(cal.Pkg.Pkg) && mentionsProtoSlice(cal, 0, map[*ssa.Function]bool{}) {
+					if cal := call.Common().StaticCallee(); cal != nil && cal.Pkg != nil && inModule(cal.Pkg.Pkg) && mentionsProtoSlice(cal, 0, map[*ssa.Function]bool{}) &&
+						mentionsAssert(cal, "PointerWrapper", 0, map[*ssa.Function]bool{}) {
 						good = true
 					}
 				}
-				// or a direct comma-ok assertion
+				// or a direct comma-ok assertion, in a function that also looks through pointer wrappers
 				for i, cd := range conds {
 					if ex, ok := cd.(*ssa.Extract); ok && ex.Index == 1 && !truths[i] {
-						if ta, ok := ex.Tuple.(*ssa.TypeAssert); ok && typeName(ta.AssertedType) == "ProtoSliceWrapper" {
+						if ta, ok := ex.Tuple.(*ssa.TypeAssert); ok && typeName(ta.AssertedType) == "ProtoSliceWrapper" && mentionsAssert(f, "PointerWrapper", 0, map[*ssa.Function]bool{}) {
 							good = true
 						}
 					}
 				}
 				c.Oblige("T.repeated-nesting", good, mi.Pos(), name, tn+" is built only when the element codec is not in repeated form",
-					"with ProtoCompatibleArrays a []string is written as a repeated field - one tagged element after another with nothing around them; as the element of another slice the boundaries between the inner slices are lost ([][]string reads back flattened). The element codec (through any pointer wrappers) must be tested for ProtoSliceWrapper and rejected", nil)
+					"with ProtoCompatibleArrays a []string is written as a repeated field - one tagged element after another with nothing around them; as the element of another slice the boundaries between the inner slices are lost ([][]string reads back flattened, and so does []*[]string). The element codec must be tested for ProtoSliceWrapper THROUGH any pointer wrappers and rejected", nil)
 			}
 		}
 		if n < 2 {
@@ -976,7 +977,7 @@ func ruleRepeatedNesting(c *Ctx) {
 						}
 					}
 					srcs(ta.X, 0)
-					if nsrc < 2 {
+					if nsrc < 2 || !mentionsAssert(f, "PointerWrapper", 0, map[*ssa.Function]bool{}) {
 						continue
 					}
 					// the ok branch returns an error and the assertion is on the way to the store: its block, or
